@@ -525,6 +525,7 @@ class LoaderBase(ABC):
             A loader instance of the same type with updated molecules.
         """
         _backend = backend or Backend()
+        max_shifts = _normalize_max_shifts(max_shifts)
         _max_shifts_px = np.asarray(max_shifts) / self.scale
 
         if isinstance(templates, ImageProvider):
@@ -1147,11 +1148,4 @@ def _is_iterable_of_funcs(x: Any) -> TypeGuard[Iterable[AggFunction]]:
 
 
 def _normalize_max_shifts(x: nm | tuple[nm, nm, nm]) -> tuple[nm, nm, nm]:
-    if hasattr(x, "__iter__"):
-        tup = tuple(float(x0) for x0 in x)  # type: ignore
-        if len(tup) != 3:
-            raise ValueError(
-                "max_shifts must be a 3-tuple if multiple values are given."
-            )
-        return tup
-    return (float(x),) * 3  # type: ignore
+    return _misc.normalize_max_shifts(x)
